@@ -932,6 +932,10 @@ def subscript(interp, base, idx, st, node):
                 return base.items[idx.const]
             interp.event("key-error", node, st, base=base, index=idx)
             return vunk("key")
+        if isinstance(base.extra, tuple) and len(base.extra) == 2 and base.extra[0] == "values" and isinstance(base.extra[1], V):
+            # a specification declared what the values of this (symbolic) dictionary are: e.g. vectors of indices
+            tpl = base.extra[1]
+            return tpl.replace(term=T("getitem", base.term, idx.term), labels=labels | tpl.labels, loc=fresh_id())
         return V("unk", T("getitem", base.term, idx.term), labels=labels)
     if base.kind == "ext" or base.kind == "obj":
         return V("unk", T("getitem", base.term, idx.term), labels=labels, orig=base.orig)
